@@ -81,17 +81,6 @@ Section Undo.
         exists b2. rewrite upd_upd by exact Hbl. split; [reflexivity|apply (mk_eq_trans _ _ _ E1 E2)].
   Qed.
 
-  Lemma set_hu_same lb : set_hu lb (hist_u lb) = lb.
-  Proof. destruct lb; reflexivity. Qed.
-  Lemma urep_marks (m : mem) (blk blk' : block) lb : urep T m bl blk bh hblk lb -> mk_eq blk blk' -> urep T (upd m bl blk') bl blk' bh hblk lb.
-  Proof.
-    intros R (L & I & E). rewrite <- (set_hu_same lb). pose proof R as [Hb L0 I0 Cn Rn Cq Ch Csz Cnn Cu Cz Cl Rg Hh Hl He Ho Ht].
-    apply (urep_struct T m bl blk blk' bh hblk lb (hist_u lb) TF R); try assumption; try congruence.
-    - intros j Hj _. apply E. exact Hj.
-    - rewrite E by (unfold L_hist_u; lia). exact Cu.
-    - lia.
-  Qed.
-
   Lemma undo_step (m : mem) (blk : block) lb (q : Z) (l2 l3 : val) fuel' : urep T m bl blk bh hblk lb -> (0 < hist_u lb)%nat -> (32 < fuel')%nat ->
     let u := (hist_u lb - 1)%nat in let lo := nth u (hist lb) dflt in
     let blk1 := upd blk L_hist_u (VInt (Z.of_nat u)) in let m1 := upd m bl blk1 in
@@ -137,12 +126,12 @@ Section Undo.
     { intro X. inversion Ho2 as [|? ? Hn _]. apply Hn. right. apply (in_log_blocks hblk u); [exact Hu2|apply mark_blocks_ent; exact X]. }
     pose proof (He2 u Hu2) as E2. destruct E2 as [_ _ E2p _ _ [zo2 E2o] _ E2m _].
     destruct (tr_loadpos m2 bl bh blk2 hblk u _ _ d fuel Hb2 L2 I2 Nhl Hh2 Hlen E2p E2o) as (b3 & C3 & E3).
-    pose proof (urep_marks m2 blk2 b3 lb2 R2 E3) as R3.
+    pose proof (urep_marks T m2 bl blk2 b3 bh hblk lb2 TF R2 E3) as R3.
     pose proof (u_ents _ _ _ _ _ _ _ R3 u Hu2) as E3'. destruct E3' as [_ _ _ _ _ _ _ E3m _].
     destruct (undo_marks_ok q u 32 0 (upd m2 bl b3) b3 fuel' ltac:(lia) (mem_upd_same m2 bl b3 Hbl2) (mk_eq_len _ _ E3 L2) (mk_eq_ints _ _ E3) Nhl
                 (u_hblk _ _ _ _ _ _ _ R3) Hlen E3m Nmk Hf) as (b4 & C4 & E4).
     unfold undo_marks, undo_body, undo_while in C4; cbn [fn_body cf_lbuf_undo] in C4. change (Z.of_nat 0) with 0 in C4.
-    exists (upd (upd m2 bl b3) bl b4), b4. split; [|apply (urep_marks _ b3 b4 lb2 R3 E4)].
+    exists (upd (upd m2 bl b3) bl b4), b4. split; [|apply (urep_marks T _ bl b3 b4 bh hblk lb2 TF R3 E4)].
     destruct Hvd as [->|[bd ->]]; xstep;
       (rewrite (hc_load m1 bh hblk (9 * u + 2) _ Hh1) by lia); rewrite E1p; xstep;
       (rewrite (hc_load m1 bh hblk (9 * u + 3) _ Hh1) by lia); rewrite E1ni; xstep;
@@ -218,3 +207,144 @@ Section Undo.
       rewrite C. xstep. reflexivity.
   Qed.
 End Undo.
+
+(* ------------------------------------------------------------------ lbuf_redo *)
+Fixpoint redo_fits (k : nat) (q : Z) (lb : lbuf) : Prop :=
+  match k with
+  | O => True
+  | S f => if Nat.ltb (hist_u lb) (length (hist lb)) && Z.eqb (seq_at (hist lb) (hist_u lb)) q
+           then let lo := nth (hist_u lb) (hist lb) dflt in
+                splice_ok (set_hu lb (S (hist_u lb))) (ins lo) (pos lo) (n_del lo) /\ redo_fits f q (redo1 lb)
+           else True
+  end.
+Definition redo_ok (lb : lbuf) : Prop := redo_fits (length (hist lb) - hist_u lb) (seq_at (hist lb) (hist_u lb)) lb.
+
+Definition redo_while : stmt := match fn_body cf_lbuf_redo with SSeq _ (SSeq _ (SSeq w _)) => w | _ => SSkip end.
+Definition redo_body : stmt := match redo_while with SWhile _ b => b | _ => SSkip end.
+Definition redo_cond : expr := match redo_while with SWhile c _ => c | _ => EConst 0 end.
+Lemma redo_while_eq : redo_while = SWhile redo_cond redo_body. Proof. reflexivity. Qed.
+
+Section Redo.
+  Variable ext : nat -> list val -> mem -> res (val * mem).
+  Variable T : Tpred.
+  Hypothesis TF : T_frame T.
+  Variables (bl bh : nat) (hblk : block).
+  Variables (d fuel : nat).
+  Let cx := callx ext cprog fuel (S (S (S d))).
+
+  Lemma redo_step (m : mem) (blk : block) lb (q : Z) (l2 : val) fuel' : urep T m bl blk bh hblk lb -> (hist_u lb < length (hist lb))%nat ->
+    let u := hist_u lb in let lo := nth u (hist lb) dflt in
+    let blk1 := upd blk L_hist_u (VInt (Z.of_nat (S u))) in let m1 := upd m bl blk1 in
+    urep T m1 bl blk1 bh hblk (set_hu lb (S u)) /\ sarg m1 (hc hblk (9 * u)) (ins lo) /\
+    forall r (m2 : mem) (blk2 : block) lb2,
+      ext X_lbuf_replace [VPtr bl 0; hc hblk (9 * u); VInt (Z.of_nat (pos lo)); VInt (Z.of_nat (n_del lo))] m1 = Ok (r, m2) ->
+      urep T m2 bl blk2 bh hblk lb2 -> (u < length (hist lb2))%nat ->
+      exists (m3 : mem) (blk3 : block), exec cx fuel' redo_body (mkst [VPtr bl 0; VInt q; l2] m)
+                      = ONormal (mkst [VPtr bl 0; VInt q; VPtr bh (Z.of_nat (9 * u))] m3) /\
+                      urep T m3 bl blk3 bh hblk lb2.
+  Proof.
+    intros R Hu u lo blk1 m1. pose proof R as [Hb L I Cn Rn Cq Ch Csz Cnn Cu Cz Cl Rg Hh Hl He Ho Ht].
+    destruct Rg as (Rq & (Ru & Rs) & Rz & Rsz).
+    assert (Hbl : (bl < length m)%nat) by (apply nth_error_Some; congruence).
+    assert (R1 : urep T m1 bl blk1 bh hblk (set_hu lb (S u))).
+    { apply (urep_struct T m bl blk blk1 bh hblk lb (S u) TF R).
+      - unfold blk1. rewrite upd_length; [exact L|rewrite L; unfold LBUF_CELLS, L_hist_u; lia].
+      - intros j Hj. unfold blk1. rewrite nth_error_upd_other by (try (rewrite L; unfold LBUF_CELLS, L_hist_u; lia); unfold L_hist_u; lia). apply I. exact Hj.
+      - intros j Hj Hne. unfold blk1. apply nth_error_upd_other; [rewrite L; unfold LBUF_CELLS, L_hist_u; lia|exact Hne].
+      - unfold blk1. apply nth_error_upd_same. rewrite L; unfold LBUF_CELLS, L_hist_u; lia.
+      - unfold u. lia. }
+    assert (Hui : (u < length (hist lb))%nat) by (unfold u; lia).
+    pose proof (u_ents _ _ _ _ _ _ _ R1 u Hui) as E1. cbn [set_hu hist] in E1. fold lo in E1.
+    split; [exact R1|]. split; [apply sown_sarg; apply (er_ins _ _ _ _ E1)|].
+    intros r m2 blk2 lb2 Hext R2 Hu2.
+    pose proof R2 as [Hb2 L2 I2 Cn2 Rn2 Cq2 Ch2 Csz2 Cnn2 Cu2 Cz2 Cl2 Rg2 Hh2 Hl2 He2 Ho2 Ht2].
+    assert (Nhl : bh <> bl) by (intro X; subst; inversion Ho as [|? ? Hn _]; apply Hn; left; reflexivity).
+    assert (Hlen : (9 * u + 9 <= length hblk)%nat) by (rewrite Hl; lia).
+    destruct E1 as [E1i E1d E1p E1ni E1nd [zo E1o] E1s E1m (Rp & Rni & Rnd & Rs1)].
+    assert (Hh1 : nth_error m1 bh = Some hblk) by (apply (u_hblk _ _ _ _ _ _ _ R1)).
+    assert (Hd : exists vd, hc hblk (9 * u) = vd /\ (vd = VInt 0 \/ exists b, vd = VPtr b 0)).
+    { eexists. split; [reflexivity|]. destruct (ins lo); cbn [sown] in E1i; [right; destruct E1i as (_ & b & -> & _); eauto|left; exact E1i]. }
+    destruct Hd as (vd & Evd & Hvd). rewrite Evd in *.
+    pose proof (He2 u Hu2) as E2. destruct E2 as [_ _ E2p _ _ [zo2 E2o] _ E2m _].
+    destruct (tr_loadpos m2 bl bh blk2 hblk u _ _ d fuel Hb2 L2 I2 Nhl Hh2 Hlen E2p E2o) as (b3 & C3 & E3).
+    exists (upd m2 bl b3), b3. split; [|apply (urep_marks T m2 bl blk2 b3 bh hblk lb2 TF R2 E3)].
+    unfold redo_body, redo_while; cbn [fn_body cf_lbuf_redo]. xstep.
+    xfld Hb Ch. xfld Hb Cu. rewrite wrap_I32_id by (unfold i31 in *; lia). rewrite chk_I32 by (unfold i31 in *; lia). xstep.
+    replace (Z.of_nat (hist_u lb) + 1) with (Z.of_nat (S u)) by (unfold u; lia).
+    rewrite (fld_store m bl blk L_hist_u _ _ Hb) by (try reflexivity; rewrite L; unfold LBUF_CELLS, L_hist_u; lia). cbn [fst snd]. xstep.
+    fold blk1. fold m1. fold u.
+    replace (0 + 9 * Z.of_nat u) with (Z.of_nat (9 * u)) by lia.
+    rewrite (hc_load m1 bh hblk (9 * u) _ Hh1) by lia. rewrite Evd.
+    destruct Hvd as [->|[bd ->]]; xstep;
+      (rewrite (hc_load m1 bh hblk (9 * u + 2) _ Hh1) by lia); rewrite E1p; xstep;
+      (rewrite (hc_load m1 bh hblk (9 * u + 4) _ Hh1) by lia); rewrite E1nd; xstep;
+      (rewrite !wrap_I32_id by (unfold i31 in *; lia));
+      unfold cx at 1; rewrite callx_S, x_lbuf_replace_none; rewrite Hext; xstep;
+      unfold cx at 1; rewrite (callx_mono ext _ _ _ _ _ _ _ C3); xstep; reflexivity.
+  Qed.
+  Hypothesis HO : replace_oracle ext T bl.
+
+  Lemma redo_loop_ok q : forall k (m : mem) (blk : block) lb (l2 : val) fuel',
+    urep T m bl blk bh hblk lb -> redo_fits k q lb -> (length (hist lb) - hist_u lb <= k)%nat -> (k < fuel')%nat ->
+    exists (m' : mem) (blk' : block) (l2' : val),
+      exec cx fuel' redo_while (mkst [VPtr bl 0; VInt q; l2] m) = ONormal (mkst [VPtr bl 0; VInt q; l2'] m') /\
+      urep T m' bl blk' bh hblk (redo_loop k q lb).
+  Proof.
+    induction k as [|k IH]; intros m blk lb l2 fuel' R Hfit Hk Hf; (destruct fuel' as [|fuel']; [lia|]);
+      pose proof R as [Hb L I Cn Rn Cq Ch Csz Cnn Cu Cz Cl Rg Hh Hl He Ho Ht]; destruct Rg as (Rq & (Ru & Rs) & Rz & Rsz);
+      rewrite redo_while_eq, exec_while, <- redo_while_eq; set (W := redo_while); unfold redo_cond, redo_while; cbn [fn_body cf_lbuf_redo];
+      xstep; xfld Hb Cu; xfld Hb Cnn; rewrite !wrap_I32_id by (unfold i31 in *; lia).
+    - destruct (Z.ltb_spec (Z.of_nat (hist_u lb)) (Z.of_nat (length (hist lb)))); [lia|]. xstep.
+      exists m, blk, l2. split; [reflexivity|exact R].
+    - cbn [redo_loop]. cbn [redo_fits] in Hfit.
+      destruct (Nat.ltb_spec (hist_u lb) (length (hist lb))) as [Hlt|Hge]; cbn [andb] in *.
+      2:{ destruct (Z.ltb_spec (Z.of_nat (hist_u lb)) (Z.of_nat (length (hist lb)))); [lia|]. xstep.
+          exists m, blk, l2. split; [reflexivity|exact R]. }
+      destruct (Z.ltb_spec (Z.of_nat (hist_u lb)) (Z.of_nat (length (hist lb)))); [|lia]. xstep.
+      xfld Hb Ch. xfld Hb Cu. rewrite wrap_I32_id by (unfold i31 in *; lia). xstep.
+      set (u := hist_u lb) in *.
+      pose proof (He u Hlt) as E. destruct E as [_ _ _ _ _ _ Es _ (_ & _ & _ & Rsq)].
+      replace (0 + 9 * Z.of_nat u + 1 * 6) with (Z.of_nat (9 * u + 6)) by lia.
+      rewrite (hc_load m bh hblk (9 * u + 6) _ Hh) by (try rewrite Hl; lia). rewrite Es. xstep. rewrite (wrap_I32_id _ Rsq).
+      unfold seq_at in *.
+      destruct (Z.eqb_spec (seq (nth u (hist lb) dflt)) q) as [Eq|Nq]; xstep.
+      2:{ exists m, blk, l2. split; [reflexivity|exact R]. }
+      destruct Hfit as [Hsp Hfit].
+      destruct (redo_step m blk lb q l2 (S fuel') R Hlt) as (R1 & Hsa & Hstep). fold u in R1, Hsa, Hstep.
+      destruct (HO _ _ _ _ _ _ _ _ _ R1 Hsa Hsp) as (r & m2 & blk2 & Hext & R2).
+      destruct (Hstep r m2 blk2 _ Hext R2 Hlt) as (m3 & blk3 & C3 & R3).
+      rewrite C3.
+      assert (Hu1 : redo1 lb = lbuf_replace (set_hu lb (S u)) (ins (nth u (hist lb) dflt)) (pos (nth u (hist lb) dflt)) (n_del (nth u (hist lb) dflt)))
+        by reflexivity.
+      rewrite <- Hu1 in R3.
+      destruct (IH m3 blk3 (redo1 lb) (VPtr bh (Z.of_nat (9 * u))) fuel' R3 Hfit) as (m' & blk' & l2' & C' & R'); try lia.
+      { rewrite Hu1. cbn [lbuf_replace set_ln set_hu hist_u hist]. lia. }
+      subst W. rewrite C'. exists m', blk', l2'. split; [reflexivity|exact R'].
+  Qed.
+
+  Theorem tr_lbuf_redo (m : mem) (blk : block) lb : urep T m bl blk bh hblk lb -> redo_ok lb -> (length (hist lb) - hist_u lb < fuel)%nat ->
+    match UndoDefs.lbuf_redo lb with
+    | None => callx ext cprog fuel (S (S (S (S d)))) F_lbuf_redo [VPtr bl 0] m = Ok (VInt 1, m)
+    | Some lb' => exists (m' : mem) (blk' : block),
+                    callx ext cprog fuel (S (S (S (S d)))) F_lbuf_redo [VPtr bl 0] m = Ok (VInt 0, m') /\ urep T m' bl blk' bh hblk lb'
+    end.
+  Proof.
+    intros R Hok Hf. pose proof R as [Hb L I Cn Rn Cq Ch Csz Cnn Cu Cz Cl Rg Hh Hl He Ho Ht]. destruct Rg as (Rq & (Ru & Rs) & Rz & Rsz).
+    unfold UndoDefs.lbuf_redo. destruct (Nat.eqb_spec (hist_u lb) (length (hist lb))) as [Eu|Nu].
+    - rewrite callx_S. cbn [nth_error cprog F_lbuf_redo cf_lbuf_redo fn_nparams fn_nlocals fn_body length Nat.eqb Nat.sub repeat app].
+      xstep. xfld Hb Cu. xfld Hb Cnn. rewrite !wrap_I32_id by (unfold i31 in *; lia). rewrite Eu, Z.eqb_refl. xstep. reflexivity.
+    - assert (Hlt : (hist_u lb < length (hist lb))%nat) by lia.
+      pose proof (He _ Hlt) as E. destruct E as [_ _ _ _ _ _ Es _ (_ & _ & _ & Rsq)].
+      destruct (redo_loop_ok (seq_at (hist lb) (hist_u lb)) (length (hist lb) - hist_u lb) m blk lb VUndef fuel R Hok ltac:(lia) ltac:(lia)) as (m' & blk' & l2' & C & R').
+      exists m', blk'. split; [|exact R'].
+      rewrite callx_S. cbn [nth_error cprog F_lbuf_redo cf_lbuf_redo fn_nparams fn_nlocals fn_body length Nat.eqb Nat.sub repeat app].
+      xstep. xfld Hb Cu. xfld Hb Cnn. rewrite !wrap_I32_id by (unfold i31 in *; lia).
+      destruct (Z.eqb_spec (Z.of_nat (hist_u lb)) (Z.of_nat (length (hist lb)))); [lia|]. xstep.
+      xfld Hb Ch. xfld Hb Cu. rewrite wrap_I32_id by (unfold i31 in *; lia). xstep.
+      replace (0 + 9 * Z.of_nat (hist_u lb) + 1 * 6) with (Z.of_nat (9 * hist_u lb + 6)) by lia.
+      rewrite (hc_load m bh hblk (9 * hist_u lb + 6) _ Hh) by (try rewrite Hl; lia). rewrite Es. xstep. rewrite (wrap_I32_id _ Rsq).
+      unfold seq_at in C. fold cx.
+      match goal with |- context [exec cx fuel (SWhile ?c ?b) ?st] => change (exec cx fuel (SWhile c b) st) with (exec cx fuel redo_while st) end.
+      rewrite C. xstep. reflexivity.
+  Qed.
+End Redo.
